@@ -143,6 +143,43 @@ fn big_case(r: &mut Rec, label: &str, d: &[u64], sign: Sign, k: usize) {
     rem_into_prim!(r, isize, isize::MIN);
 }
 
+/// every operator form with the MIN and MAX of every scalar type (the values where `abs`, negation and widening
+/// differ between overflow-checked and wrapping builds)
+pub fn extremes_case(r: &mut Rec, label: &str, d: &[u64], sign: Sign) {
+    if !r.case(label) {
+        return;
+    }
+    load_u(r, 0, d);
+    load_i_from_u(r, 0, sign, 0);
+    all_ops!(r, u, u, "U", big_parts_u, u8, u8::MAX);
+    all_ops!(r, u, u, "U", big_parts_u, u16, u16::MAX);
+    all_ops!(r, u, u, "U", big_parts_u, u32, u32::MAX);
+    all_ops!(r, u, u, "U", big_parts_u, u64, u64::MAX);
+    all_ops!(r, u, u, "U", big_parts_u, u128, u128::MAX);
+    all_ops!(r, u, u, "U", big_parts_u, usize, usize::MAX);
+    all_ops!(r, i, i, "I", big_parts_i, u64, u64::MAX);
+    all_ops!(r, i, i, "I", big_parts_i, u128, u128::MAX);
+    all_ops!(r, i, i, "I", big_parts_i, i8, i8::MIN);
+    all_ops!(r, i, i, "I", big_parts_i, i8, i8::MAX);
+    all_ops!(r, i, i, "I", big_parts_i, i16, i16::MIN);
+    all_ops!(r, i, i, "I", big_parts_i, i16, i16::MAX);
+    all_ops!(r, i, i, "I", big_parts_i, i32, i32::MIN);
+    all_ops!(r, i, i, "I", big_parts_i, i32, i32::MAX);
+    all_ops!(r, i, i, "I", big_parts_i, i64, i64::MIN);
+    all_ops!(r, i, i, "I", big_parts_i, i64, i64::MAX);
+    all_ops!(r, i, i, "I", big_parts_i, i128, i128::MIN);
+    all_ops!(r, i, i, "I", big_parts_i, i128, i128::MAX);
+    all_ops!(r, i, i, "I", big_parts_i, isize, isize::MIN);
+    all_ops!(r, i, i, "I", big_parts_i, isize, isize::MAX);
+}
+
+pub fn extremes(r: &mut Rec) {
+    extremes_case(r, "extremes small negative", &[77], Sign::Minus);
+    extremes_case(r, "extremes two digits", &[0x1234_5678_9abc_def0, 0x0fed_cba9], Sign::Plus);
+    extremes_case(r, "extremes 2^127", &[0, 1 << 63], Sign::Minus);
+    extremes_case(r, "extremes three digits", &[u64::MAX, 0, 1], Sign::Minus);
+}
+
 fn sums(r: &mut Rec, k: usize) {
     use std::iter::{Product, Sum};
     let n = 1 + k % 4;
@@ -177,6 +214,7 @@ pub fn run(r: &mut Rec) {
             big_case(r, &format!("big#{} rep {}", bi, rep), d, sign, bi * 3 + rep);
         }
     }
+    extremes(r);
     // structured operands where the value/reference forms take different code paths
     crate::drivers::addsub::chains(r, if r.thorough { 14 } else { 9 }, r.thorough);
     crate::drivers::bits::pow64_family(r);
